@@ -62,6 +62,10 @@ def generate(rng, n, tier):
                     't0': rng.choice([0, 0, 0, 4107542400 - 110, 951782400 - 105, 4107542400 + 86400 * 100])})      # ordinary instants, or around the end of February 2100 / 2000
     for c in out:
         c['noised'] = rng.random() < 0.15
+        if rng.random() < 0.2:
+            c['viacopy'] = True
+            if rng.random() < 0.6 and len(c['pts']) >= 3:      # a closed circuit: the last fix is at the place (and height) of the first
+                c['pts'][-1] = list(c['pts'][0]); c['z'][-1] = c['z'][0]
         if rng.random() < 0.25:
             k = len(c['t'])
             ties = [i for i in range(1, k) if (c['t'][i], c['ms'][i]) == (c['t'][i - 1], c['ms'][i - 1])] + [i for i in range(2, k) if (c['t'][i], c['ms'][i]) == (c['t'][i - 2], c['ms'][i - 2])]
@@ -94,7 +98,12 @@ def mktrack(case):
         elif alt == 'hour':                        # ISO midnight: 00:00:00 of the 4th written 24:00:00 of the 3rd
             d2 = d - datetime.timedelta(days=1)
             ot = ObsTime(d2.year, d2.month, d2.day, d2.hour + 24, d2.minute, d2.second, ms)
-        obs.append(Obs(ENUCoords(x, y, z), ot))
+        twin = next((o for o, (px, py), pz in zip(obs, case['pts'], case['z']) if (px, py, pz) == (x, y, z)), None) if case.get('viacopy') else None
+        if twin is not None:                       # a fix at a place already visited, made as a copy of the earlier fix with its own instant (closing a circuit, a stop)
+            o = twin.copy(); o.timestamp = ot
+            obs.append(o)
+        else:
+            obs.append(Obs(ENUCoords(x, y, z), ot))
     return Track(obs)
 
 
